@@ -174,6 +174,29 @@ pub fn gen_multi_input(t: &mut Tape) -> Job {
 
 pub const TWIN_SET: &[&str] = &["symbols", "mesen-mlb", "addrspan", "annotated"];
 
+/// v4: programs that are identical up to and including an asm-block rule and differ in the rules BEHIND it (so that
+/// the inner instruction of the block - same place, same text after substitution - names other rules by index and
+/// type in each of them): one is the job, the others are assembled on the same thread just BEFORE it
+pub fn gen_asm_sibling(t: &mut Tape) -> String {
+    let pool = ["raw {v} => 0x11 @ v`8", "nop => 0x00", "raw {v: u4} => 0x2 @ v", "raw {v}, {w} => 0x33 @ v`8 @ w`8", "rbw {v} => 0x44 @ v`8", "raw {v: u16} => 0x55 @ v", "raw {v: s8} => 0x66 @ v"];
+    let mut order: Vec<usize> = (0..pool.len()).collect();
+    for i in (1..order.len()).rev() {
+        let j = t.below(i + 1);
+        order.swap(i, j);
+    }
+    let k = t.urange(1, pool.len());
+    let mut s = String::from("#ruledef\n{\n    mac {x} => asm { raw {x} }\n    mac2 {x}, {y} => asm\n    {\n        raw {x}\n        raw {y}\n    }\n");
+    let split = t.chance(1, 3);
+    for (n, i) in order.iter().take(k).enumerate() {
+        if split && n == k / 2 {
+            s.push_str("}\n#ruledef\n{\n");
+        }
+        s.push_str(&format!("    {}\n", pool[*i]));
+    }
+    s.push_str("}\nmac 0x12\nmac 3\nmac2 0x7, 0x1234\nmac -1\n");
+    s
+}
+
 fn first_difference(a: &str, b: &str) -> String {
     for (la, lb) in a.lines().zip(b.lines()) {
         if la != lb {
@@ -213,7 +236,17 @@ impl Property for C10 {
         let buckets = crate::engine::gen_version() >= 2 && !twins && t.chance(1, 8);
         let incfile = crate::engine::gen_version() >= 2 && !twins && !buckets && t.chance(1, 8);
         let multi = crate::engine::gen_version() >= 3 && !twins && !buckets && !incfile && t.chance(1, 8);
-        let job = if twins {
+        let siblings = crate::engine::gen_version() >= 4 && !twins && !buckets && !incfile && !multi && t.chance(1, 8);
+        let job = if siblings {
+            ctx.label("asm-siblings");
+            // the siblings run first, on this thread; the job itself is then compared with a run on a fresh thread
+            for _ in 0..t.urange(1, 3) {
+                let sib = Job { origin: "asm-sibling".into(), files: vec![("main.asm".into(), gen_asm_sibling(t).into_bytes())], root: "main.asm".into(), generated: true };
+                let sa = args_for(&sib, FORMAT_SETS[0], &[]);
+                let _ = record(&sib, &sa);
+            }
+            Job { origin: "asm-sibling".into(), files: vec![("main.asm".into(), gen_asm_sibling(t).into_bytes())], root: "main.asm".into(), generated: true }
+        } else if twins {
             gen_twins(t)
         } else if multi {
             ctx.label("multi-input");
@@ -251,7 +284,7 @@ impl Property for C10 {
         let text = job.files.iter().find(|f| f.0 == job.root).map(|f| String::from_utf8_lossy(&f.1).to_string()).unwrap_or_default();
         let nsym = text.lines().filter(|l| l.trim_end().ends_with(':') || l.contains(" = ")).count();
         let ndiag = r0.matches("error:").count();
-        ctx.nontrivial = nsym >= 8 || ndiag >= 2 || set.len() == 1 || twins || buckets || incfile || multi;
+        ctx.nontrivial = nsym >= 8 || ndiag >= 2 || set.len() == 1 || twins || buckets || incfile || multi || siblings;
         ctx.label(if r0.starts_with("ok=true") { "succeeds" } else { "fails" });
         ctx.render(|| json!({"job": job_json(&job), "args": args}));
         let fail = |ctx: &mut CaseCtx, how: &str, a: &str, b: &str| -> Verdict {
@@ -269,7 +302,13 @@ impl Property for C10 {
         let nh = t.urange(1, 3);
         for _ in 0..nh {
             // (for a job that reads data files: the same program over other file contents under the same names)
-            let other = if incfile { gen_incfile(t) } else { gen_job(t) };
+            let other = if incfile {
+                gen_incfile(t)
+            } else if siblings {
+                Job { origin: "asm-sibling".into(), files: vec![("main.asm".into(), gen_asm_sibling(t).into_bytes())], root: "main.asm".into(), generated: true }
+            } else {
+                gen_job(t)
+            };
             let oa = args_for(&other, FORMAT_SETS[t.below(3)], &[]);
             let _ = record(&other, &oa);
         }
